@@ -16,7 +16,7 @@ func init() {
 		Info: core.Info{
 			Explanation: "Decides on the SSA of the generic (*Dialer[T]).Dial, its function literals and dialOne (the generic body is analysed once): " +
 				"(REQ) dialOne is called only from the worker literal and, with RequireECH and 'the attempt's config has no ECH list' assumed, that call is unreachable; DialFunc is called only in dialOne; " +
-				"(KEEP) census of every store to EncryptedClientHelloConfigList: the PublicName bootstrap list under needECH && PublicName != \"\" on Dial's own clone, the target's list under needECH && target.ECH != nil on the per-attempt clone, the retry list in dialOne under a non-empty RetryConfigList and !retried; needECH is exactly 'the caller supplied no list', computed before the bootstrap; " +
+				"(KEEP) census of every store to EncryptedClientHelloConfigList: the PublicName bootstrap list under needECH && PublicName != \"\" on Dial's own clone, the target's list under needECH && target.ECH != nil on the per-attempt clone, the retry list in dialOne under a non-empty RetryConfigList and !retried; needECH is exactly 'the caller supplied no list', computed before the bootstrap; every attempt is handed the target's own list whenever the target has one and ECH is needed, under no further condition; " +
 				"(SNI) the only store to ServerName is under ServerName == \"\" with the dial target's host, and that host derives only from the caller's address (split/trim) or the transport's URL host - never from a resolution result; " +
 				"(PAIR) the address dialled and the ECH list used come from the same received target, on a config cloned inside the per-target loop (no state carried from one target to the next); " +
 				"(RETRY) dialOne's only cycle is taken under !retried, sets retried, keeps network and address, and installs the rejection error's RetryConfigList; " +
@@ -185,6 +185,18 @@ func c17Rules(p *core.Prog, r *core.Run) {
 				}
 			}
 			r.Check("C17.KEEP", "worker:target-list", needECH && fromTarget && nonNil, p.InstrPos(st), "the target's ECH list is used only when the caller supplied none (%v), it comes from the received target (%v) and is non-nil (%v)", needECH, fromTarget, nonNil)
+			// ... and under no further condition: a record's list that is set aside
+			// (a stricter validation, say) lets the attempt go out without ECH
+			extra := otherFacts(fs,
+				func(f core.Fact) bool { return listF(f.L) && f.R != nil && f.R.Name == "nil" },
+				func(f core.Fact) bool { return f.L.String() == v.String() && f.R != nil && f.R.Name == "nil" },
+				func(f core.Fact) bool {
+					return f.L.Any(func(x *core.Expr) bool { return x.Op == "field" && x.Name == "err" }) && f.R != nil && f.R.Name == "nil"
+				},
+				func(f core.Fact) bool {
+					return (f.Op == "true" || f.Op == "false") && strings.Contains(f.L.String(), "<-")
+				})
+			r.Check("C17.KEEP", "worker:target-list-always", len(extra) == 0, p.InstrPos(st), "the target's ECH list is used whenever the caller supplied none and the record has one; further conditions: %v", extra)
 		case root == m.dialOne:
 			retry := v.Op == "field" && v.Name == "RetryConfigList"
 			nonEmpty, notRetried, isRej := false, false, false
